@@ -128,6 +128,7 @@ std::vector<uint64_t> g_change_points;
 int g_low_prio = 0;
 int g_cas_weak_fail = 8;                 // 1/n spurious failures of compare_exchange_weak (0 = never)
 bool g_trace_all = false;
+bool g_payload_sched = false;            // plain accesses to vrt_payload ranges are scheduling points too
 bool g_trace_clock = false;              // opt-in: `ev clock <ns>` lines and ` to=<ns>` on timed fwait lines
 
 thread_local Thread* t_self = nullptr;
@@ -282,6 +283,7 @@ void payload_access(const void* addr, size_t size, bool write) {
   for (auto& r : g_payload)
     if (p < r.hi && p + size > r.lo) { pl = &r; break; }
   if (!pl) return;
+  if (g_payload_sched) reschedule(false);
   Thread* t = t_self;
   for (uintptr_t w = p & ~7ull; w < p + size; w += 8) {
     Shadow& s = g_shadow[w];
@@ -355,6 +357,7 @@ void vrt_unname_all() {
 void vrt_payload(const void* addr, size_t len, const char* name) {
   g_payload.push_back({(uintptr_t)addr, (uintptr_t)addr + len, name});
 }
+void vrt_payload_sched(int on) { g_payload_sched = on != 0; }
 void vrt_event(const char* fmt, ...) {
   char buf[400];
   va_list ap;
